@@ -37,14 +37,17 @@ theorem C02_write_gap_zero (d : Bytes) (pos : Nat) (b : Bytes) (hb : b ≠ []) :
     (writeData d pos b).length = max d.length (pos + b.length) := by
   exact ⟨writeData_eq d pos b hb, fun k h1 h2 => writeData_gap d pos b hb k h1 h2, writeData_length d pos b hb⟩
 
-/-- With O_APPEND every non-empty write lands at the current end of the file, whatever the handle offset is. -/
+/-- With O_APPEND every non-empty write lands at the current end of the file, whatever the handle offset is
+    (`hsz`: the file stays within `maxFileSize`; otherwise the write is refused with EINVAL and changes nothing). -/
 theorem C02_append_lands_at_end (s : Store) (v : View) (h : Handle) (i : Ino) (m : Meta) (d b : Bytes) (nl : Int) (id : Nat)
     (hn : h.name ≠ []) (hnd : h.nd = some i) (hg : s.get i = some (.file m d nl id))
-    (hw : h.om &&& omWrite ≠ 0) (ha : h.om &&& omAppend ≠ 0) (hb : b ≠ []) :
+    (hw : h.om &&& omWrite ≠ 0) (ha : h.om &&& omAppend ≠ 0) (hb : b ≠ [])
+    (hsz : d.length + b.length ≤ maxFileSize) :
     ∃ m', (fileStep s v h (.write b)).1.get i = some (.file m' (d ++ b) nl id) ∧
       (fileStep s v h (.write b)).2.2.1.pos = ((d.length + b.length : Nat) : Int) := by
   refine ⟨{ m with mtime := none }, ?_⟩
-  simp [fileStep, isEmpty_false_of_ne hn, isEmpty_false_of_ne hb, hnd, hg, hw, ha, writeData_at_end, get_set_eq]
+  have hmax : ¬ maxFileSize < d.length + b.length := Nat.not_lt.mpr hsz
+  simp [fileStep, isEmpty_false_of_ne hn, isEmpty_false_of_ne hb, hnd, hg, hw, ha, hmax, writeData_at_end, get_set_eq]
 
 /-- The access mode of the handle is enforced: reading needs read mode, writing and truncating need write mode;
     a refused call changes nothing. -/
@@ -91,18 +94,20 @@ theorem C02_handle_survives_remove (s : Store) (i : Ino) (m : Meta) (d : Bytes) 
   simp [deleteNode, hg, get_set_eq]
 
 /-- Handles (and hard links) share one inode: what is written through one handle is what any other handle on the same
-    inode then reads. -/
+    inode then reads (`hsz`: the write ends within `maxFileSize`, so it is not refused). -/
 theorem C02_shared_inode (s : Store) (v : View) (h1 h2 : Handle) (i : Ino) (m : Meta) (d b : Bytes) (nl : Int) (id n : Nat)
     (hn1 : h1.name ≠ []) (hn2 : h2.name ≠ []) (hnd1 : h1.nd = some i) (hnd2 : h2.nd = some i)
     (hg : s.get i = some (.file m d nl id)) (hw : h1.om &&& omWrite ≠ 0) (hna : h1.om &&& omAppend = 0)
-    (hr : h2.om &&& omRead ≠ 0) (hpos : 0 ≤ h1.pos) (hb : b ≠ []) (hn0 : n ≠ 0) :
+    (hr : h2.om &&& omRead ≠ 0) (hpos : 0 ≤ h1.pos) (hb : b ≠ []) (hn0 : n ≠ 0)
+    (hsz : h1.pos.toNat + b.length ≤ maxFileSize) :
     let s' := (fileStep s v h1 (.write b)).1
     let d' := writeData d h1.pos.toNat b
     (fileStep s' v h2 (.readAt n 0)).2.2.2 =
       (if n ≤ d'.length then .ok (.num n (d'.take n)) else .errN d'.length d' .eof) := by
   intro s' d'
   have hs' : s' = s.set i (.file { m with mtime := none } d' nl id) := by
-    simp [s', d', fileStep, isEmpty_false_of_ne hn1, isEmpty_false_of_ne hb, hnd1, hg, hw, hna]
+    have hmax : ¬ maxFileSize < h1.pos.toNat + b.length := Nat.not_lt.mpr hsz
+    simp [s', d', fileStep, isEmpty_false_of_ne hn1, isEmpty_false_of_ne hb, hnd1, hg, hw, hna, hmax]
   rw [hs']
   simp only [fileStep, isEmpty_false_of_ne hn2, hnd2, get_set_eq]
   simp [hr, hn0]
